@@ -742,6 +742,23 @@ func c15LaxConformance(c *vh.Ctx, g *vh.Gen, n int) {
 		// (b) enum entity carrying attributes is accepted by Validator.Entities; `has` on an enum-typed expression is typed False
 		if len(s.EnumTypes) > 0 {
 			et := s.EnumTypes[0]
+			// (b0) an entity of an enum type must be one of the declared values, without parents
+			bogus := types.NewEntityUID(et, "\x00not-a-declared-value")
+			declared := s.RS.Enums[et].Values
+			c.Res.OracleChecks++
+			if vp.Entities(types.EntityMap{bogus: types.Entity{UID: bogus}}) == nil || vs.Entities(types.EntityMap{bogus: types.Entity{UID: bogus}}) == nil {
+				c.Dist("failure:enum-entity-with-attributes-conforms")
+				c.Report(vh.Finding{Class: "enum-entity-with-attributes-conforms", What: fmt.Sprintf("Validator.Entities accepts %s, which is not one of the declared values of the enum type %s", bogus, et),
+					Check: "oracle", Op: "validate-entities", Input: map[string]any{"schema": s.Text, "entity": bogus.String()}, Expected: "rejected", Actual: "accepted"})
+			}
+			if len(declared) > 1 {
+				withParent := types.Entity{UID: declared[0], Parents: types.NewEntityUIDSet(declared[1])}
+				if vp.Entities(types.EntityMap{declared[0]: withParent}) == nil {
+					c.Dist("failure:enum-entity-with-attributes-conforms")
+					c.Report(vh.Finding{Class: "enum-entity-with-attributes-conforms", What: fmt.Sprintf("Validator.Entities accepts the enum entity %s with a parent", declared[0]),
+						Check: "oracle", Op: "validate-entities", Input: map[string]any{"schema": s.Text, "entity": declared[0].String()}, Expected: "rejected", Actual: "accepted"})
+				}
+			}
 			c2 := vh.NewC15Gen(g, s, env)
 			if enumExpr, ok := c15EnumPath(c2, et); ok {
 				body := ast.NodeTypeOr{BinaryNode: ast.BinaryNode{Left: ast.NodeTypeNot{UnaryNode: ast.UnaryNode{Arg: ast.NodeTypeHas{StrOpNode: ast.StrOpNode{Arg: enumExpr, Value: "zz"}}}}, Right: junk}}
